@@ -246,10 +246,23 @@ def gen_ops(rng: random.Random, hps: dict[str, Any],
             ops.append({'op': 'memq', 'ranks': sorted(ks)})
         elif r < extras * 0.7 and sched_spec and trained:
             step = rng.choice([None, None, rng.randint(0, 9)])
+            f_old = m.ref.hp('factor_update_steps')
+            i_old = m.ref.hp('inv_update_steps')
             m.ref.sched_step(sched_spec, step)
             if not m.legal():
                 return None
-            ops.append({'op': 'sched', 'step': step})
+            sop: dict[str, Any] = {'op': 'sched', 'step': step}
+            s_ = m.ref.steps
+            flips = (s_ % f_old == 0) != (
+                s_ % m.ref.hp('factor_update_steps') == 0) or (
+                s_ % i_old == 0) != (s_ % m.ref.hp('inv_update_steps') == 0)
+            if flips or (m.ref.steps + len(ops)) % 2 == 0:
+                # biased placement: always when this scheduler step changes
+                # what the CURRENT K-FAC step is (factor update / refresh)
+                # validation pass right before the scheduler step (derived,
+                # not drawn: the choice tape of older seeds is unchanged)
+                sop['val_first'] = True
+            ops.append(sop)
         elif r < extras * 0.7 + restarts * 0.5 and trained:
             inc_f = rng.random() < 0.85 and factors_exist
             ranks = rng.choice([[0], None, [0]])
@@ -329,6 +342,10 @@ def gen_ops(rng: random.Random, hps: dict[str, Any],
             if rng.random() < 0.1:
                 # an eval-mode probe before micro-batch k of this iteration
                 op['mid_eval'] = rng.randrange(acc)
+                # ... or between that micro-batch's forward and backward pass
+                # (no extra draw: the choice tape of older seeds is unchanged)
+                if (it + op['mid_eval']) % 2 == 0:
+                    op['mid_eval_nested'] = True
             ops.append(op)
             it += 1
             trained += 1
